@@ -58,7 +58,7 @@ def gen_case(rng, tier, i):
     if rng.random() < 0.15 and sims <= 3 and len(script.get('gates', [0] * 99)) <= 14:
         cfgs.append({'cls': 'gpu', 'sched': wavegen.gen_interleave_sched(rng), 'block': wavegen.gen_block(rng, small=True)})
     case['cfgs'] = cfgs
-    case['logic'] = {'m': rng.choice([2, 4, 8]), 'sims': rng.choice([1, 5, 8, 13]), 'vals': [rng.randrange(8) for _ in range(rng.randint(3, 23))],
+    case['logic'] = {'m': rng.choice([2, 4, 8]), 'sims': rng.choice([1, 5, 8, 9, 13, 16, 33]), 'vals': [rng.randrange(8) for _ in range(rng.randint(3, 23))],
                      'rowperm': {'kind': rng.choice(['random', 'reversed']), 'seed': rng.randrange(1 << 20)}}
     return case
 
